@@ -17,4 +17,19 @@ def required(ctx):
 
 
 def main(ctx):
-    c07.main(ctx, PROPS, RULE, required)
+    ctx.rule = RULE + ("; plus directed variants of dipoles/dipole_motion whose chain time is shorter than the first mode switch "
+                       "(end-of-chain events, which create the root-mode taggers, then occur while those taggers must still be "
+                       "deactivated by the start-of-run tagger)")
+    ctx.assumptions = ["pending events are reconstructed from the activator's return values only",
+                       "the expected activation state of every tagger is reconstructed from the activate/deactivate lists of the "
+                       ".ini, never from the taggers' own flags"]
+    n_gen, sh_ev, slow_ev, gen_ev = ctx.pick((24, 2500, 1500, 2500), (200, 60000, 20000, 20000))
+    jobs = suite.jobs_for(ctx, PROPS, n_gen, sh_ev, slow_ev, gen_ev, seeds=ctx.pick((0,), (0, 1, 2)))
+    for k, ct in enumerate([0.3, 0.11, 0.05]):
+        jobs.append({"spec": {"kind": "shipped", "name": "dipoles/dipole_motion", "end": 1e6, "overrides": {
+            "SingleIndependentActivePeriodicDirectionEndOfChainEventHandler": {"chain_time": ct}}},
+            "props": list(PROPS), "seed": ctx.seed * 1000 + 300 + k, "max_events": sh_ev,
+            "label": f"dipoles/dipole_motion(chain_time {ct})"})
+    suite.run_suite(ctx, PROPS, jobs, timeout=ctx.pick(900, 3000))
+    required(ctx)
+    ctx.require("deactivated_tagger_comparisons", 1000)
